@@ -284,6 +284,9 @@ def canon_dep(test, label):
     t, l = test, label
     flip = {"T": "F", "F": "T"}
     while True:
+        if isinstance(t, ast.NamedExpr):
+            t = t.value  # (x := e) is tested for the truth of e
+            continue
         if isinstance(t, ast.UnaryOp) and isinstance(t.op, ast.Not):
             t, l = t.operand, flip.get(l, l)
             continue
@@ -304,8 +307,13 @@ def atomic_deps(test, label):
     a test that cannot be decomposed for that branch stays whole"""
     t, l = test, label
     flip = {"T": "F", "F": "T"}
-    while isinstance(t, ast.UnaryOp) and isinstance(t.op, ast.Not):
-        t, l = t.operand, flip.get(l, l)
+    while isinstance(t, (ast.UnaryOp, ast.NamedExpr)):
+        if isinstance(t, ast.NamedExpr):
+            t = t.value
+        elif isinstance(t.op, ast.Not):
+            t, l = t.operand, flip.get(l, l)
+        else:
+            break
     if isinstance(t, ast.BoolOp):
         if (isinstance(t.op, ast.Or) and l == "F") or (isinstance(t.op, ast.And) and l == "T"):
             out = []
